@@ -104,7 +104,7 @@ fn c01(d: &Digest, s: usize, out: &mut Vec<Violation>) {
         }
     }
     // (a) exactly once for accepted actions under the blocking policy
-    if sd.model.policy == Policy::Block && sd.clean_stop.is_some() && observable(sd) && !sd.model.hole_reducers {
+    if sd.model.policy == Policy::Block && (sd.clean_stop.is_some() || d.drained(s)) && observable(sd) && !sd.model.hole_reducers {
         for &ci in &sd.dispatches {
             let c = &d.calls[ci];
             if let (OpK::Dispatch { act, .. }, true) = (&c.op, c.ok()) {
